@@ -59,6 +59,9 @@ impl FreeWord {
 
     pub fn rotated(&self, i: isize) -> Self {
         let n = self.w.len() as isize;
+        if n == 0 {
+            return self.clone();
+        }
         let i = i.rem_euclid(n) as usize;
 
         let r = std::iter::empty()
@@ -140,7 +143,7 @@ impl Mul<isize> for FreeWord {
 
 impl MulAssign<&FreeWord> for FreeWord {
     fn mul_assign(&mut self, rhs: &FreeWord) {
-        self.w = mul(&self.w, &rhs.w);
+        self.w = normalized(mul(&self.w, &rhs.w));
     }
 }
 
